@@ -163,7 +163,7 @@ func r6argsX(c *core.Ctx) {
 		inOK := in.K == core.ASlice && in.Lo == 0
 		desc := core.ArgName(in)
 		if inOK {
-			t, has := r.mac.Mem.Tails[in.Path]
+			t, has := r.mac.Mem.Tail(in.Path)
 			b0 := r.mac.Mem.Load(in.Path+"[0]", nil)
 			inOK = has && t.From == 1 && t.Src == "plain" && t.SrcLo == 0 && t.Ver == wantVer && sqnOK(b0.Bits)
 			desc = fmt.Sprintf("octet 0 = %s, rest = %+v (payload version wanted %d)", b0, t, wantVer)
@@ -175,7 +175,7 @@ func r6argsX(c *core.Ctx) {
 		odesc := core.ArgName(out)
 		if outOK {
 			cell := func(i int) core.BitVec { return o.Mem.Load(fmt.Sprintf("%s[%d]", out.Path, i), nil).Bits }
-			t, has := o.Mem.Tails[out.Path]
+			t, has := o.Mem.Tail(out.Path)
 			outOK = has && t.From == 7 && t.Src == "plain" && t.SrcLo == 0 && t.Ver == wantVer &&
 				cell(0) != nil && cell(0).IsCopy(7, 0, "p1.SecurityHeader.ProtocolDiscriminator", 0) &&
 				cell(1) != nil && cell(1).IsCopy(7, 0, "p1.SecurityHeader.SecurityHeaderType", 0) && sqnOK(cell(6))
